@@ -15,14 +15,16 @@
     committee, designated NeoFS Alphabet, the set of witnessed script
     hashes): "all signer contexts" = all [e]; [st]/[s] is ANY storage.
 
-    Findings recorded here (model faithful to the unchanged code, confirmed
-    on the real contracts by the harness corpus):
-    - [C16_preserves_netmap_refuted]: an EMPTY pre-0.16 snapshot is re-encoded
-      from a nil slice and reads back as Null instead of the empty array
-      (F15);
-    - [C16_preserves_container_premise_needed]: a 57-byte estimation key
+    Finding recorded here (model faithful to the unchanged code, confirmed
+    on the real contract by the harness corpus; known finding
+    C16/container-estimation-key-len57):
+    - [C16_preserves_container_refuted]: a 57-byte estimation key
       ("cnr" + 12-byte epoch + cid + 10) is taken for an owner-index entry
-      by the length-selected key migration (F16). *)
+      by the length-selected key migration; [C16_preserves_container_partial]
+      holds under the decidable layout predicate [legacy_wf_container].
+    (The Null re-encoding of empty pre-0.16 Netmap snapshots found by this
+    family was fixed in /repo, commit 3adfa7f; the model describes the fixed
+    code and [C16_preserves_netmap_snapshots] now covers empty snapshots.) *)
 From Verif Require Import Base.Prelude Base.IntCodec Model.MigStore Model.Migration
   Proofs.MigStore Proofs.Migration.
 Local Open Scope Z_scope.
@@ -165,91 +167,117 @@ Proof.
 Qed.
 Print Assumptions C16_preserves_container_pointwise.
 
-(** The listings: under the layout predicate (nothing but legacy ids/owner
-    keys starts with 'x' or 'o') List(), Count() and ContainersOf/List(owner)
-    return after the upgrade exactly the legacy entries, in the same order. *)
-Theorem C16_preserves_container : forall prevN verN e args s s',
+(** Refuted for arbitrary prior storages: an estimation key of length 57
+    — "cnr" + a 12-byte epoch + cid + 10 bytes, which putContainerSize accepts
+    from any storage node of the network map, the epoch being unchecked — is
+    taken for an owner-index entry.  After the upgrade the estimation is gone
+    from IterateContainerSizes and ContainersOf lists an entry that is not
+    the id of any container. *)
+Definition ex_cid : bytes := repeat 5%N 32.
+Definition ex_est_key : bytes := p_estimate ++ int_to_bytes (2 ^ 90) ++ ex_cid ++ repeat 3%N 10.
+Definition ex_cnr_hostile : store := of_list [ (ex_est_key, [1%N]) ].
+Definition ex_env : env := env_basic 14 [] [] [].
+Definition ex_cnr_hostile_after : store :=
+  match deploy_container real_prev real_version ex_env [IInt 19000] ex_cnr_hostile with
+  | Halt s' => s' | Fault => ∅ end.
+
+Theorem C16_preserves_container_refuted :
+  exists s s', store_ok s /\
+    deploy_container real_prev real_version ex_env [IInt 19000] s = Halt s' /\
+    cnr_estimations s (2 ^ 90) ex_cid = [(ex_est_key, [1%N])] /\
+    cnr_estimations s' (2 ^ 90) ex_cid = [] /\
+    cnr_owned_new s' [] = [(ex_est_key, [1%N])] /\
+    cnr_get_new s' (drop 25 ex_est_key) = None.
+Proof.
+  exists ex_cnr_hostile, ex_cnr_hostile_after.
+  split; [apply store_okb_spec; vm_compute; reflexivity|].
+  split; [vm_compute; reflexivity|]. vm_compute. repeat split; reflexivity.
+Qed.
+Print Assumptions C16_preserves_container_refuted.
+
+(** Partial: under the layout predicate [legacy_wf_container] (decidable:
+    [legacy_wf_containerb]) — nothing but legacy ids/owner keys starts with
+    'x' or 'o', and every 57-byte key is a genuine [owner ++ cid |-> cid] of a
+    stored container — List(), Count() and ContainersOf/List(owner) return
+    after the upgrade exactly the legacy entries, in the same order, and every
+    listed entry is the id of a container that Get finds. *)
+Theorem C16_preserves_container_partial : forall prevN verN e args s s',
   deploy_container prevN verN e args s = Halt s' -> legacy_wf_container s ->
   cnr_all_new s' = cnr_all_old s /\
   length (cnr_all_new s') = length (cnr_all_old s) /\
-  (forall owner, cnr_owned_new s' owner = cnr_owned_old s owner).
+  (forall owner, cnr_owned_new s' owner = cnr_owned_old s owner) /\
+  (forall owner (k v : bytes), (k, v) ∈ cnr_owned_new s' owner ->
+     v = drop 25 k /\ is_Some (cnr_get_new s' (drop 25 k))).
 Proof.
   intros prevN verN e args s s' H Hwf.
-  destruct (container_lists_preserved prevN verN e args s s' H Hwf) as [Ha Ho].
-  split; [exact Ha|]. split; [rewrite Ha; reflexivity|exact Ho].
+  destruct (container_lists_preserved prevN verN e args s s' H (proj1 Hwf)) as [Ha Ho].
+  split; [exact Ha|]. split; [rewrite Ha; reflexivity|]. split; [exact Ho|].
+  intros owner k v. exact (container_owner_entries_genuine prevN verN e args s s' owner k v H Hwf).
 Qed.
-Print Assumptions C16_preserves_container.
+Print Assumptions C16_preserves_container_partial.
+
+Theorem C16_legacy_wf_container_decidable : forall s,
+  legacy_wf_containerb s = true -> legacy_wf_container s.
+Proof. exact legacy_wf_containerb_spec. Qed.
+Print Assumptions C16_legacy_wf_container_decidable.
 
 (** * C16_preserves_netmap *)
 
-(** Refuted as stated: an empty snapshot written before 0.16 reads back as
-    Null after the upgrade (the loop appends to a nil slice; std.Serialize of
-    nil is the Null item), although the legacy storage is perfectly
-    well-formed. *)
-Definition ex_netmap_legacy : store :=
-  of_list [ (k_snapshotCount, [1%N]); (snap_key 0, ser (IArray []));
-            (k_balanceSH, repeat 7%N 20); (k_containerSH, repeat 8%N 20) ].
-Definition ex_env : env := env_basic 14 [] [] [].
-
-Theorem C16_preserves_netmap_refuted :
-  exists s s', deploy_netmap real_prev real_version ex_env [IInt real_prev] s = Halt s' /\
-    (exists d, s !! snap_key 0 = Some d /\ deserialize d = Halt (IArray [])) /\
-    (exists d', s' !! snap_key 0 = Some d' /\ deserialize d' = Halt INull).
-Proof.
-  exists ex_netmap_legacy. eexists. split; [vm_compute; reflexivity|]. split.
-  - eexists. split; [vm_compute; reflexivity|vm_compute; reflexivity].
-  - eexists. split; [vm_compute; reflexivity|vm_compute; reflexivity].
-Qed.
-Print Assumptions C16_preserves_netmap_refuted.
-
-(** Partial: what does hold for every prior storage. *)
-
 (** (a) snapshots below 0.16: every stored snapshot within the count that was
-    written by std.Serialize as an array of node structures reads back, when
-    NOT EMPTY, as the same nodes with State = Online. *)
-Theorem C16_preserves_netmap_partial_snapshots : forall prevN verN e args s s' v cnt j nodes,
+    written by std.Serialize as an array of node structures — empty or not —
+    reads back as the same nodes with State = Online. *)
+Theorem C16_preserves_netmap_snapshots : forall prevN verN e args s s' v cnt j nodes,
   deploy_netmap prevN verN e args s = Halt s' -> args_version args = Halt v -> v < 16000 ->
   snapshot_count s = Halt cnt -> 0 <= j < cnt ->
   s !! snap_key j = Some (ser (IArray nodes)) ->
   Forall wf_item nodes -> item_count (IArray nodes) <= max_items ->
-  exists d', s' !! snap_key j = Some d' /\
-    ((nodes <> [] /\ deserialize d' = Halt (IArray (map up_node nodes))) \/
-     (nodes = [] /\ deserialize d' = Halt INull)).
+  exists d', s' !! snap_key j = Some d' /\ deserialize d' = Halt (IArray (map up_node nodes)).
 Proof.
   intros prevN verN e args s s' v cnt j nodes H Hv Hlt Hc Hj Hs Hwf Hcount.
   pose proof (deploy_netmap_snapshot prevN verN e args s s' v cnt j H Hv Hlt Hc Hj) as Hspec.
   rewrite Hs in Hspec. destruct Hspec as (d' & Hup & Hs'). exists d'. split; [exact Hs'|].
-  destruct (upgrade_snapshot_spec _ _ Hwf Hcount Hup) as [(-> & _ & Hd)|[Hne Hd]]; [right|left]; auto.
+  exact (upgrade_snapshot_spec _ _ Hwf Hcount Hup).
 Qed.
-Print Assumptions C16_preserves_netmap_partial_snapshots.
+Print Assumptions C16_preserves_netmap_snapshots.
+
+(** A missing snapshot key stays missing. *)
+Theorem C16_preserves_netmap_snapshot_absent : forall prevN verN e args s s' v cnt j,
+  deploy_netmap prevN verN e args s = Halt s' -> args_version args = Halt v -> v < 16000 ->
+  snapshot_count s = Halt cnt -> 0 <= j < cnt -> s !! snap_key j = None -> s' !! snap_key j = None.
+Proof.
+  intros prevN verN e args s s' v cnt j H Hv Hlt Hc Hj Hs.
+  pose proof (deploy_netmap_snapshot prevN verN e args s s' v cnt j H Hv Hlt Hc Hj) as Hspec.
+  rewrite Hs in Hspec. exact Hspec.
+Qed.
+Print Assumptions C16_preserves_netmap_snapshot_absent.
 
 (** (b) below 0.19 the two stored hashes become new-epoch subscribers 0 and
     1 (Balance, Container) and the legacy keys disappear. *)
-Theorem C16_preserves_netmap_partial_subscribers : forall prevN verN e args s s' v,
+Theorem C16_preserves_netmap_subscribers : forall prevN verN e args s s' v,
   deploy_netmap prevN verN e args s = Halt s' -> args_version args = Halt v -> v < 19000 ->
   exists hb hc : bytes, s !! k_balanceSH = Some hb /\ s !! k_containerSH = Some hc /\
     s' !! (p_subscribers ++ [0%N] ++ hb) = Some [] /\
     s' !! (p_subscribers ++ [1%N] ++ hc) = Some [] /\
     s' !! k_balanceSH = None /\ s' !! k_containerSH = None.
 Proof. exact deploy_netmap_subscribers. Qed.
-Print Assumptions C16_preserves_netmap_partial_subscribers.
+Print Assumptions C16_preserves_netmap_subscribers.
 
 (** (c) everything else — configuration, epoch, current snapshot id, Node2
     data ... — is untouched. *)
-Theorem C16_preserves_netmap_partial_frame : forall prevN verN e args s s' (q : bytes),
+Theorem C16_preserves_netmap_frame : forall prevN verN e args s s' (q : bytes),
   deploy_netmap prevN verN e args s = Halt s' -> netmap_touched q = false -> s' !! q = s !! q.
 Proof. exact deploy_netmap_frame. Qed.
-Print Assumptions C16_preserves_netmap_partial_frame.
+Print Assumptions C16_preserves_netmap_frame.
 
 (** (d) candidates below 0.16: [oldCandidate{oldNode{BLOB}, state}] reads
     back as [Node{BLOB, state}]. *)
-Theorem C16_preserves_netmap_partial_candidate : forall blob rest st d',
+Theorem C16_preserves_netmap_candidate : forall blob rest st d',
   wf_item blob -> Forall wf_item rest -> wf_item st ->
   item_count (IStruct [IStruct (blob :: rest); st]) <= max_items ->
   upgrade_candidate (ser (IStruct [IStruct (blob :: rest); st])) = Halt d' ->
   deserialize d' = Halt (IStruct [blob; st]).
 Proof. exact upgrade_candidate_spec. Qed.
-Print Assumptions C16_preserves_netmap_partial_candidate.
+Print Assumptions C16_preserves_netmap_candidate.
 
 (** * C16_preserves_nns *)
 
@@ -324,88 +352,104 @@ Definition ex_gate_env (wit : list bytes) : env := env_basic 14 ex_committee [] 
 Definition ex_acct (b : Z) : bytes := ser (IStruct [IInt b; IInt 0; INull]).
 Definition exA : bytes := repeat 1%N 20.
 Definition exB : bytes := repeat 2%N 20.
-Definition ex_ballots (height : Z) : bytes :=
-  ser (IArray [IStruct [IBytes [9%N]; IArray [IBytes [1%N]]; IInt height]]).
+Definition ex_ballot (height : Z) : item := IStruct [IBytes [9%N]; IArray [IBytes [1%N]]; IInt height].
 Definition ex_balance_legacy (ballot_height : Z) : store :=
   of_list [ (exA, ex_acct 10); (exB, ex_acct 32); (k_supply, int_to_bytes 42);
-            (k_notary, [1%N]); (k_ballots, ex_ballots ballot_height); (k_netmapSH, exA) ].
+            (k_notary, [1%N]); (k_ballots, ser (IArray [ex_ballot ballot_height])); (k_netmapSH, exA) ].
+Definition ex_update (wit : list bytes) (ballot_height : Z) :=
+  update_tx ex_ms (fun _ => None) (fun x => x) real_prev real_version CBalance
+            (ex_gate_env wit) true INull (mkC (ex_balance_legacy ballot_height) real_prev).
 
-(** A committee-signed Balance upgrade from 0.15.4 with only expired ballots
-    halts, moves both accounts and keeps balances and supply... *)
-Example C16_nonvacuous_balance :
-  let st := mkC (ex_balance_legacy (14 - 21)) real_prev in
-  exists st',
-    update ex_ms (fun _ => None) (fun x => x) real_prev real_version CBalance
-           (ex_gate_env [ex_ms 4 ex_committee]) true INull st = Halt st' /\
-    c_version st' = real_version /\
-    legacy_wf_balance (c_store st) /\
-    map (balance_of_new (c_store st')) [exA; exB] = [Halt 10; Halt 32] /\
-    map (balance_of_old (c_store st)) [exA; exB] = [Halt 10; Halt 32] /\
-    sdump (c_store st') =
-      [ (k_supply, int_to_bytes 42); (acc_prefix :: exA, ex_acct 10); (acc_prefix :: exB, ex_acct 32) ].
+Definition legacy_wf_balanceb (s : store) : bool :=
+  forallb (fun kv : bytes * bytes =>
+             if (length (fst kv) =? 20)%nat
+             then match s !! (acc_prefix :: fst kv) with None => true | Some _ => false end
+             else true) (map_to_list s).
+
+Lemma legacy_wf_balanceb_spec s : legacy_wf_balanceb s = true -> legacy_wf_balance s.
 Proof.
-  eexists. split; [vm_compute; reflexivity|]. split; [reflexivity|]. split.
-  - intros a Ha [v Hv]. apply elem_of_sdump in Hv.
-    vm_compute in Hv. repeat (apply elem_of_cons in Hv as [Hv|Hv];
-      [injection Hv as -> _; try (cbn in Ha; discriminate); vm_compute; reflexivity|]). inversion Hv.
-  - vm_compute. auto.
+  unfold legacy_wf_balanceb, legacy_wf_balance. rewrite forallb_forall. intros H a Ha [v Hv].
+  specialize (H (a, v) ltac:(apply elem_of_list_In, elem_of_map_to_list; exact Hv)). cbn [fst] in H.
+  rewrite (proj2 (Nat.eqb_eq _ _) Ha) in H. destruct (s !! (acc_prefix :: a)); [discriminate|reflexivity].
 Qed.
 
-(** ... the same upgrade one block earlier (ballot exactly blockDiff old)
-    faults, by [C16_pending_votes_block]; with a 5-of-6 signature (the 2/3+1
-    "Alphabet" account instead of the majority account) it faults at the gate. *)
+(** A majority-signed Balance upgrade from 0.15.4 whose only ballot is 21
+    blocks old halts, moves both accounts and keeps balances and supply ... *)
+Example C16_nonvacuous_balance :
+  legacy_wf_balance (ex_balance_legacy (14 - 21)) /\
+  let '(st', halted) := ex_update [ex_ms 4 ex_committee] (14 - 21) in
+  halted = true /\ c_version st' = real_version /\
+  map (balance_of_new (c_store st')) [exA; exB] = [Halt 10; Halt 32] /\
+  map (balance_of_old (ex_balance_legacy (14 - 21))) [exA; exB] = [Halt 10; Halt 32] /\
+  sdump (c_store st') =
+    [ (k_supply, int_to_bytes 42); (acc_prefix :: exA, ex_acct 10); (acc_prefix :: exB, ex_acct 32) ].
+Proof.
+  split; [apply legacy_wf_balanceb_spec; vm_compute; reflexivity|].
+  vm_compute. repeat split; reflexivity.
+Qed.
+
+(** ... the same upgrade with the ballot exactly blockDiff = 20 blocks old
+    meets the premise of [C16_pending_votes_block] and changes nothing; with a
+    5-of-6 signature (the 2/3+1 "Alphabet" account instead of the majority
+    account) or with a stranger's it is refused at the gate. *)
 Example C16_nonvacuous_pending :
   pending_votes 14 (ex_balance_legacy (14 - 20)) /\
-  update_tx ex_ms (fun _ => None) (fun x => x) real_prev real_version CBalance
-            (ex_gate_env [ex_ms 4 ex_committee]) true INull (mkC (ex_balance_legacy (14 - 20)) real_prev)
-  = (mkC (ex_balance_legacy (14 - 20)) real_prev, false) /\
-  update_tx ex_ms (fun _ => None) (fun x => x) real_prev real_version CBalance
-            (ex_gate_env [ex_ms 5 ex_committee]) true INull (mkC (ex_balance_legacy (14 - 21)) real_prev)
-  = (mkC (ex_balance_legacy (14 - 21)) real_prev, false).
+  snd (ex_update [ex_ms 4 ex_committee] (14 - 20)) = false /\
+  snd (ex_update [ex_ms 5 ex_committee] (14 - 21)) = false /\
+  snd (ex_update [[7%N]] (14 - 21)) = false.
 Proof.
-  split; [|split; vm_compute; reflexivity].
-  eexists _, _. split; [vm_compute; reflexivity|]. split; [vm_compute; reflexivity|].
-  split; vm_compute; reflexivity.
+  split.
+  - exists [1%N], [ex_ballot (14 - 20)].
+    split; [vm_compute; reflexivity|]. split; [vm_compute; reflexivity|].
+    split; vm_compute; reflexivity.
+  - vm_compute. repeat split; reflexivity.
 Qed.
 
 (** The Balance premise is needed: a prefixed namesake of an account is
     overwritten (the prefixed key's own balance is lost). *)
+Definition ex_bal_collision : store := of_list [ (exA, ex_acct 10); (acc_prefix :: exA, ex_acct 999) ].
 Example C16_preserves_balance_premise_needed :
-  exists s s', deploy_balance real_prev real_version ex_env [IInt 19000] s = Halt s' /\
-    balance_of_new s exA = Halt 999 /\ balance_of_new s' exA = Halt 10.
-Proof.
-  exists (of_list [ (exA, ex_acct 10); (acc_prefix :: exA, ex_acct 999) ]). eexists.
-  split; [vm_compute; reflexivity|]. split; vm_compute; reflexivity.
-Qed.
-
-(** The Container premise is needed (F16): an estimation key of length 57
-    — "cnr" + a 12-byte epoch + cid + 10 bytes, which putContainerSize accepts
-    from any storage node of the network map — is moved under 'o': the
-    estimation disappears from its place and the owner listing gains an
-    entry that is no container id. *)
-Definition ex_cid : bytes := repeat 5%N 32.
-Definition ex_est_key : bytes := str "cnr" ++ int_to_bytes (2 ^ 90) ++ ex_cid ++ repeat 3%N 10.
-Example C16_preserves_container_premise_needed :
-  length ex_est_key = 57%nat /\
-  exists s s', deploy_container real_prev real_version ex_env [IInt 19000] s = Halt s' /\
-    s !! ex_est_key = Some [1%N] /\ s' !! ex_est_key = None /\
-    cnr_owned_old s [] = [(ex_est_key, [1%N])] /\
-    cnr_owned_new s' [] = [(ex_est_key, [1%N])].
-Proof.
-  split; [reflexivity|].
-  exists (of_list [ (ex_est_key, [1%N]) ]). eexists.
-  split; [vm_compute; reflexivity|]. repeat split; vm_compute; reflexivity.
-Qed.
+  match deploy_balance real_prev real_version ex_env [IInt 19000] ex_bal_collision with
+  | Halt s' => balance_of_new ex_bal_collision exA = Halt 999 /\ balance_of_new s' exA = Halt 10
+  | Fault => False
+  end.
+Proof. vm_compute. split; reflexivity. Qed.
 
 (** Container non-vacuity: a legacy storage meeting the layout predicate. *)
+Definition ex_cnr_legacy : store :=
+  of_list [ (ex_cid, [7%N]); (repeat 9%N 25 ++ ex_cid, ex_cid); (p_eacl ++ ex_cid, [8%N]);
+            (k_notary, [0%N]); (repeat 80%N 33, [1%N]) ].
 Example C16_nonvacuous_container :
-  let s := of_list [ (ex_cid, [7%N]); (repeat 9%N 25 ++ ex_cid, ex_cid); (p_eacl ++ ex_cid, [8%N]);
-                     (k_notary, [0%N]); (repeat 80%N 33, [1%N]) ] in
-  legacy_wf_container s /\
-  exists s', deploy_container real_prev real_version ex_env [IInt real_prev] s = Halt s' /\
-    cnr_all_new s' = [(ex_cid, [7%N])] /\ cnr_owned_new s' (repeat 9%N 25) = [(repeat 9%N 25 ++ ex_cid, ex_cid)].
+  legacy_wf_container ex_cnr_legacy /\
+  match deploy_container real_prev real_version ex_env [IInt real_prev] ex_cnr_legacy with
+  | Halt s' => cnr_all_new s' = [(ex_cid, [7%N])] /\
+               cnr_owned_new s' (repeat 9%N 25) = [(repeat 9%N 25 ++ ex_cid, ex_cid)] /\
+               s' !! k_notary = None /\ s' !! repeat 80%N 33 = Some [1%N]
+  | Fault => False
+  end.
 Proof.
-  cbv zeta. split.
-  - apply legacy_wf_containerb_spec. vm_compute. reflexivity.
-  - eexists. split; [vm_compute; reflexivity|]. split; vm_compute; reflexivity.
+  split; [apply legacy_wf_containerb_spec; vm_compute; reflexivity|].
+  vm_compute. repeat split; reflexivity.
 Qed.
+
+(** Netmap non-vacuity: an old-format storage with an empty and a non-empty
+    snapshot and one candidate upgrades from 0.15.4; the empty snapshot stays
+    an empty array (the regression fixed by 3adfa7f). *)
+Definition ex_blob : item := IBytes (repeat 4%N 40).
+Definition ex_netmap_legacy : store :=
+  of_list [ (k_snapshotCount, [2%N]); (snap_key 0, ser (IArray []));
+            (snap_key 1, ser (IArray [IStruct [ex_blob]]));
+            (p_candidate ++ repeat 2%N 33, ser (IStruct [IStruct [ex_blob]; IInt 3]));
+            (k_balanceSH, repeat 7%N 20); (k_containerSH, repeat 8%N 20) ].
+Example C16_nonvacuous_netmap :
+  match deploy_netmap real_prev real_version ex_env [IInt real_prev] ex_netmap_legacy with
+  | Halt s' =>
+      (d <-! match s' !! snap_key 0 with Some d => Halt d | None => Fault end; deserialize d) = Halt (IArray []) /\
+      (d <-! match s' !! snap_key 1 with Some d => Halt d | None => Fault end; deserialize d)
+        = Halt (IArray [IStruct [ex_blob; IInt 1]]) /\
+      (d <-! match s' !! (p_candidate ++ repeat 2%N 33) with Some d => Halt d | None => Fault end; deserialize d)
+        = Halt (IStruct [ex_blob; IInt 3]) /\
+      map fst (sfind p_subscribers s') = [p_subscribers ++ [0%N] ++ repeat 7%N 20; p_subscribers ++ [1%N] ++ repeat 8%N 20]
+  | Fault => False
+  end.
+Proof. vm_compute. repeat split; reflexivity. Qed.
